@@ -104,6 +104,11 @@ func (e *EVM) ApplyMessage(ctx sdk.Context, msg core.Message, tracer vm.EVMLogge
 	if msg.To() == nil {
 		contractAddr := crypto.CreateAddress(msg.From(), msg.Nonce())
 		e.store(ctx).Set(k([]byte("c"), contractAddr.Bytes()), []byte{1})
+		// the proxy's constructor carries initialize(name, symbol, decimals, owner): the contract answers decimals()
+		// with what it was deployed with, like the real one
+		if dec, ok := deployedDecimals(msg.Data()); ok {
+			e.store(ctx).Set(k([]byte("d"), contractAddr.Bytes()), []byte{dec})
+		}
 		return &tokentypes.Result{Hash: contractAddr.Hex()}, nil
 	}
 	contract := *msg.To()
@@ -152,7 +157,49 @@ func (e *EVM) ApplyMessage(ctx sdk.Context, msg core.Message, tracer vm.EVMLogge
 			res.VMError = err.Error()
 		}
 		return res, nil
+	case "decimals":
+		dec := uint8(18)
+		if bz := e.store(ctx).Get(k([]byte("d"), contract.Bytes())); len(bz) == 1 {
+			dec = bz[0]
+		}
+		res.Ret, err = method.Outputs.Pack(dec)
+		return res, err
+	case "totalSupply":
+		res.Ret, err = method.Outputs.Pack(e.TotalSupply(ctx, contract))
+		return res, err
 	default:
 		return nil, fmt.Errorf("unknown method %s", method.Name)
 	}
+}
+
+// deployedDecimals reads the decimals argument of the initialize call embedded in the proxy deployment data
+// (creation code || abi(beacon, initialize(name, symbol, decimals, owner))).
+func deployedDecimals(data []byte) (dec uint8, ok bool) {
+	defer func() {
+		if recover() != nil {
+			ok = false
+		}
+	}()
+	bin := contracts.TokenProxyContract.Bin
+	if len(data) <= len(bin) {
+		return 0, false
+	}
+	args, err := contracts.TokenProxyContract.ABI.Constructor.Inputs.Unpack(data[len(bin):])
+	if err != nil || len(args) != 2 {
+		return 0, false
+	}
+	init, isBytes := args[1].([]byte)
+	if !isBytes || len(init) < 4 {
+		return 0, false
+	}
+	m, err := contracts.ERC20TokenContract.ABI.MethodById(init[:4])
+	if err != nil {
+		return 0, false
+	}
+	in, err := m.Inputs.Unpack(init[4:])
+	if err != nil || len(in) < 3 {
+		return 0, false
+	}
+	d, isU8 := in[2].(uint8)
+	return d, isU8
 }
